@@ -34,6 +34,8 @@ func checkC30(c *Ctx, r *Report) {
 	r.rule("C30.R2", "Consumer.Unwrap returns the fetched blob only after the checksum comparison (when enabled and declared)", 2)
 	r.rule("C30.R3", "streamDownloadWithVerify sends 200/bytes only after size and SHA-256 verification of exactly what it buffered", 6)
 	r.rule("C30.R4", "handleHTTPDownload validates digest shape and size bounds before the stream path and forwards them unchanged", 3)
+	r.rule("C30.R5", "the digest compared is the digest declared: no code reachable from Resolve / Unwrap / DecodeEnvelope / EnvelopeChecksum rewrites Envelope.SHA256, Checksum or ChecksumAlg (hex case folding of the same field excepted)", 1)
+	checkDigestNotRewritten(m, r, "C30.R5")
 
 	envCk := pkgLFS + ".EnvelopeChecksum"
 	compCk := pkgLFS + ".ComputeChecksum"
@@ -418,4 +420,55 @@ func dependsOnCallValue(v ssa.Value, target ssa.Value) bool {
 		}
 	})
 	return hit
+}
+
+// checkDigestNotRewritten (C30.R5, added after a seeded change trimmed the decoded digest so that a
+// blank one became "declares no checksum"): between decoding and comparison nobody rewrites the
+// fields EnvelopeChecksum reads.
+func checkDigestNotRewritten(m *Module, r *Report, rule string) {
+	var roots []*ssa.Function
+	for _, n := range []string{"(*Resolver).Resolve", "(*Consumer).Unwrap", "DecodeEnvelope", "EnvelopeChecksum"} {
+		if f := needFn(m, r, rule, pkgLFS, n); f != nil {
+			roots = append(roots, f)
+		}
+	}
+	if len(roots) != 4 {
+		return
+	}
+	reach := reachFrom(m, roots)
+	digest := map[string]bool{"SHA256": true, "Checksum": true, "ChecksumAlg": true}
+	bad := 0
+	for fn := range reach {
+		r.fn(fn)
+		for _, b := range fn.Blocks {
+			for _, in := range b.Instrs {
+				st, ok := in.(*ssa.Store)
+				if !ok {
+					continue
+				}
+				fa, ok := st.Addr.(*ssa.FieldAddr)
+				if !ok {
+					continue
+				}
+				t, f, _, ok := fieldAddrInfo(fa)
+				if !ok || t != pkgLFS+".Envelope" || !digest[f] {
+					continue
+				}
+				caseOnly := dependsOnField(st.Val, "", f)
+				backSlice(st.Val, true, func(x ssa.Value) {
+					if c, ok := x.(*ssa.Call); ok && !nameMatches(calleeName(&c.Call), "strings.ToLower", "strings.ToUpper") {
+						caseOnly = false
+					}
+				})
+				if caseOnly {
+					continue
+				}
+				bad++
+				r.viol(rule, "Envelope."+f+" rewritten in "+funcName(fn), m.Pos(st.Pos()), "the reader path ("+chainTo(reach, fn)+") stores "+describe(st.Val)+" into the field EnvelopeChecksum reads: the value compared (or its emptiness, which decides whether anything is compared) is no longer the one the envelope declares")
+			}
+		}
+	}
+	if bad == 0 {
+		r.ok(rule, fmt.Sprintf("no digest field of Envelope is rewritten in the %d functions reachable from the readers", len(reach)), m.Pos(roots[0].Pos()), "")
+	}
 }
